@@ -55,6 +55,8 @@ CONFIGS = [
     ('synirr', 'hand_made', {'start': 'explicit', 'depth': '30', 'timeline': '1', 'patch': '1'}),
     ('synwild', 'hand_made', {'start': 'explicit', 'depth': '30', 'timeline': '1', 'patch': '1', 'mup': '7'}),
     ('tears', 'hand_made', {'start': 'month', 'depth': '30', 'timeline': '1', 'patch': '1'}),
+    # track ids other than 1 and 2: AdaptationSet ids and track ids are different things
+    ('syntrk', 'hand_made', {'start': 'explicit', 'depth': '30', 'timeline': '1', 'patch': '1'}),
     # a start written with a UTC offset (the same instant as the explicit one)
     ('bbb', 'hand_made', {'start': 'explicit+01:00', 'depth': '30', 'timeline': '1', 'patch': '1'}),
     # options that come from the defaults stored with the stream, not from the query
